@@ -36,6 +36,7 @@ type Sink struct {
 	FailAt    int64  // the write that would cross this byte offset fails (-1: never)
 	FailClose bool   // Close returns an error
 	Short     bool   // the failing write is a short write (n < len, err = io.ErrShortWrite)
+	OneShot   bool   // only that write fails: the sink accepts everything afterwards (a transient fault)
 	Refused   int    // number of refusals reported to the writer
 	OnRefuse  func() // called at the first refusal
 	Err       error  // the error returned by a refusal (nil: ErrInjected)
@@ -88,6 +89,9 @@ func (s *Sink) Write(p []byte) (int, error) {
 			return n, io.ErrShortWrite
 		}
 		s.FailAt = s.accepted
+		if s.OneShot {
+			s.FailAt = -1
+		}
 		return 0, s.fault()
 	}
 	s.accepted += int64(len(p))
